@@ -256,6 +256,15 @@ func genLease(r *rand.Rand, sc *Scenario) {
 		sc.Steps = append(sc.Steps, Step{At: t, Act: "heal"})
 		t += 3 * p.ElectionMs
 	}
+	if p.Voters >= 3 && r.Intn(2) == 0 {
+		// the majority is lost through a configuration change, not through the network: one
+		// follower is unreachable and another one (reachable) loses its vote
+		t += 2 * p.ElectionMs
+		sc.Steps = append(sc.Steps, Step{At: t, Act: "isolate-follower"}, Step{At: t + p.LeaseMs/2 + r.Intn(p.HeartbeatMs), Act: "demote-other", S: pick(r, "demote", "remove")})
+		t += 6*p.LeaseMs + 3*p.ElectionMs
+		sc.Steps = append(sc.Steps, Step{At: t, Act: "heal"})
+		t += 3 * p.ElectionMs
+	}
 	sortSteps(sc.Steps)
 	sc.EndMs = t + 2*p.HeartbeatMs
 }
